@@ -964,10 +964,33 @@ func (c *InternalClient) ColumnAttrDiff(ctx context.Context, uri *pilosa.URI, in
 
 	// Decode response object.
 	var rsp postIndexAttrDiffResponse
-	if err := json.NewDecoder(resp.Body).Decode(&rsp); err != nil {
+	dec := json.NewDecoder(resp.Body)
+	dec.UseNumber()
+	if err := dec.Decode(&rsp); err != nil {
 		return nil, errors.Wrap(err, "decoding")
 	}
-	return rsp.Attrs, nil
+	return attrNumbers(rsp.Attrs), nil
+}
+
+// attrNumbers turns the json.Number values of decoded attributes back into
+// int64 (integer literals) or float64 (everything else). Decoding attribute
+// values into interface{} without this makes every number a float64, which
+// is then stored by anti-entropy in place of the integer.
+func attrNumbers(m map[uint64]map[string]interface{}) map[uint64]map[string]interface{} {
+	for _, attrs := range m {
+		for k, v := range attrs {
+			n, ok := v.(json.Number)
+			if !ok {
+				continue
+			}
+			if i, err := strconv.ParseInt(n.String(), 10, 64); err == nil {
+				attrs[k] = i
+			} else if f, err := n.Float64(); err == nil {
+				attrs[k] = f
+			}
+		}
+	}
+	return m
 }
 
 // RowAttrDiff returns data from differing blocks on a remote host.
@@ -1007,10 +1030,12 @@ func (c *InternalClient) RowAttrDiff(ctx context.Context, uri *pilosa.URI, index
 
 	// Decode response object.
 	var rsp postFieldAttrDiffResponse
-	if err := json.NewDecoder(resp.Body).Decode(&rsp); err != nil {
+	dec := json.NewDecoder(resp.Body)
+	dec.UseNumber()
+	if err := dec.Decode(&rsp); err != nil {
 		return nil, errors.Wrap(err, "decoding")
 	}
-	return rsp.Attrs, nil
+	return attrNumbers(rsp.Attrs), nil
 }
 
 // SendMessage posts a message synchronously.
